@@ -1074,6 +1074,70 @@ fn sig_mutations(ctx: &mut Ctx, sig: &pgp::packet::Signature, label: &str) {
     }
 }
 
+/// subpackets that carry a legal but NON-minimal length form (two- or five-octet form for a short
+/// body), as the parser keeps them: removed from the signature they arrived in, and inserted into
+/// another signature through the public API — the announced lengths must follow the stored form
+fn sig_mutations_nonminimal(ctx: &mut Ctx, target: &pgp::packet::Signature, label: &str) {
+    let Some(orig) = serialize(&Packet::Signature(target.clone())) else { return };
+    for form in [2u8, 5] {
+        for (typ, body) in [(20u8, sub_body_valid(20)), (26, b"https://example.org/p".to_vec()), (100, pattern(form as usize, 9)), (16, KEYID.to_vec())] {
+            let Some(sp_wire) = wire::subpacket(form, typ, &body) else { continue };
+            // a carrier signature whose unhashed area is: minimal issuer, the non-minimal subpacket, minimal policy uri
+            let mut area = wire::subpacket_min(16, &KEYID);
+            area.extend_from_slice(&sp_wire);
+            area.extend_from_slice(&wire::subpacket_min(26, b"x"));
+            let carrier_body = wire::sig_v4(4, 0x13, 1, 8, &[], &area, [1, 2], None, &sig_tail(1));
+            let carrier_pkt = wire::packet(2, &carrier_body);
+            let parsed = guarded(|| {
+                let mut src: &[u8] = &carrier_pkt;
+                match pgp::packet::PacketParser::new(&mut src).next() {
+                    Some(Ok(Packet::Signature(s))) => Some(s),
+                    _ => None,
+                }
+            });
+            let Ok(Some(carrier)) = parsed else {
+                ctx.stat("api_sig_nonminimal:carrier_refused");
+                continue;
+            };
+            let what = format!("{label}: subpacket type {typ} length form {form}");
+            // (a) remove each subpacket of the carrier in turn
+            for idx in 0..3usize {
+                let mut s2 = carrier.clone();
+                if !matches!(guarded(|| s2.unhashed_subpacket_remove(idx).map(|_| ())), Ok(Ok(()))) {
+                    continue;
+                }
+                let p2 = Packet::Signature(s2);
+                let out2 = serialize(&p2);
+                oracles(ctx, &p2, out2.as_deref(), &[], false, &format!("{what} remove@{idx} data={}", hx(&carrier_pkt)), "_after_mutation");
+                ctx.case(format!("c05_sigmut data={} op=rm idx={idx}", hx(&carrier_pkt)), answer_for(&p2, out2.as_deref(), 0, &[]));
+                ctx.stat("gen:api_sig_mutation_nonminimal");
+            }
+            // (b) take the non-minimal subpacket out and insert it into the target signature, then remove it again
+            let mut donor = carrier.clone();
+            let Ok(Ok(sp)) = guarded(|| donor.unhashed_subpacket_remove(1)) else { continue };
+            let n_un = target.config().map(|c| c.unhashed_subpackets.len()).unwrap_or(0);
+            for idx in [0usize, n_un] {
+                let mut s2 = target.clone();
+                if !matches!(guarded(|| s2.unhashed_subpacket_insert(idx, sp.clone())), Ok(Ok(()))) {
+                    continue;
+                }
+                let p2 = Packet::Signature(s2.clone());
+                let out2 = serialize(&p2);
+                oracles(ctx, &p2, out2.as_deref(), &[], false, &format!("{what} insert@{idx} data={}", hx(&orig)), "_after_mutation");
+                ctx.case(format!("c05_sigmut data={} op=ins idx={idx} sp={}", hx(&orig), hx(&sp_wire)), answer_for(&p2, out2.as_deref(), 0, &[]));
+                let mut s3 = s2.clone();
+                if matches!(guarded(|| s3.unhashed_subpacket_remove(idx).map(|_| ())), Ok(Ok(()))) {
+                    let p3 = Packet::Signature(s3);
+                    let out3 = serialize(&p3);
+                    oracles(ctx, &p3, out3.as_deref(), &[], false, &format!("{what} insert+remove@{idx}"), "_after_mutation");
+                    ctx.oracle("roundtrip_equal_value_after_mutation", "Signature::unhashed_subpacket_insert -> remove (non-minimal length form)", &format!("{what}@{idx}"), out3.as_deref() == Some(&orig[..]), "bytes differ after insert+remove");
+                }
+                ctx.stat("gen:api_sig_mutation_nonminimal");
+            }
+        }
+    }
+}
+
 fn gen_api(ctx: &mut Ctx) {
     let mut rng = rand_chacha::ChaCha8Rng::seed_from_u64(ctx.seed ^ 0xC05);
     let mut plans: Vec<(KeyVersion, KeyType, Option<KeyType>, &str)> = vec![
@@ -1111,6 +1175,7 @@ fn gen_api(ctx: &mut Ctx) {
         // signatures of the certificate: unhashed-area mutations
         if let Some(sig) = key.details.users.first().and_then(|u| u.signatures.first()) {
             sig_mutations(ctx, sig, name);
+            sig_mutations_nonminimal(ctx, sig, name);
         }
         if let Some(sig) = key.details.direct_signatures.first() {
             sig_mutations(ctx, sig, name);
